@@ -1,16 +1,16 @@
 SPECIFICATION Spec
 CONSTANTS
- MaxBatches = 3
- BatchSizes = {1,2}
+ MaxBatches = 2
+ BatchSizes = {1}
  Cap = 2
  SyncWrites = FALSE
- Spill = TRUE
+ Spill = FALSE
  MaxHist = 0
  Keys = {1,2}
  NBuckets = 1
- VCap = 0
- MaxGC = 0
- MaxCrash = 1
+ VCap = 2
+ MaxGC = 2
+ MaxCrash = 2
  FlushWorkers = 1
  GcSync = TRUE
  GcExact = TRUE
